@@ -161,7 +161,7 @@ def core(v):
     return ds[0], ds[1], ns[-1]
 
 
-def state(v):
+def state(v, lab=lab):
     i2l, l2i, stop = core(v)
     # a key of _index_to_label may be an alias object of the index (`idx = self._label_to_index.pop(old, old)` with an alias `old`)
     def ik(k):
@@ -635,7 +635,23 @@ def object_cases(ctx, r, lines, expect, speclines, meta, cls=Variables, n_hist=N
     ctx.tick('object histories (whole alphabet)', n_hist)
 
 
-def odd_label_cases(ctx, r):
+def enc_f(o):
+    """the encoding `LabelF.enc` of lean/DimodModel/LabelF.lean, written independently: integers (and their aliases) and strings
+    stay, a non-integral number becomes ('#frac', numerator, denominator), a tuple ('#tup', *encoded elements)"""
+    import fractions
+    if isinstance(o, tuple):
+        return ('#tup',) + tuple(enc_f(x) for x in o)
+    if isinstance(o, str):
+        return o
+    q = o if isinstance(o, fractions.Fraction) else fractions.Fraction(int(o)) if isinstance(o, (bool, int, np.integer)) else fractions.Fraction(float(o))
+    return int(q) if q.denominator == 1 else ('#frac', q.numerator, q.denominator)
+
+
+def lab_f(o):
+    return lab(enc_f(o))
+
+
+def odd_label_cases(ctx, r, lines=None, expect=None, speclines=None, meta=None):
     """labels outside the alias model, judged against the plain list only (no model line): non-integral floats and their
     NumPy / Fraction aliases are labels of their own (1.5 is neither 1 nor 2); `nan` / `inf` (not self-equal / not
     convertible by `int()`) are REFUSED by every entry point with the state unchanged."""
@@ -648,29 +664,39 @@ def odd_label_cases(ctx, r):
         if isinstance(o, str):
             return ('s', o)
         return ('q', o if isinstance(o, fractions.Fraction) else fractions.Fraction(int(o)) if isinstance(o, (int, np.integer)) else fractions.Fraction(float(o)))
+    def emit(line, exp, hist):
+        if lines is not None:
+            lines.append(line); expect.append(exp); speclines.append(None); meta.append(('oddF:' + line.split(' ')[0], tuple(hist)))
+
     for _ in range(ctx.scale(150, 1500)):
         v = Variables(); ref = []; code = ['import fractions', 'import numpy as np', 'from dimod.variables import Variables', 'v = Variables()']
         fl = [x for x in fl0 if not is_np(x)] if r.random() < .5 else [x for x in fl0 if not isinstance(x, tuple)]   # NumPy scalar == tuple: DESIGN D23
+        emit('clear', 'ok ' + state(v, lab_f), ())
         for _ in range(r.randint(1, 8)):
             k = r.choice('+?pxq')
             o = r.choice(fl)
+            mline = None
             if k in '+?':
+                mline = f'append {lab_f(o)} {int(k == "?")}'
                 src = f'v._append({rp(o)}, permissive={k == "?"})'; want = cf(o) not in ref or k == '?'
                 if cf(o) not in ref:
                     ref.append(cf(o))
                 call = lambda: v._append(o, permissive=(k == '?'))  # noqa: E731
             elif k == 'p':
+                mline = 'pop'
                 src = 'v._pop()'; want = bool(ref)
                 if ref:
                     ref.pop()
                 call = lambda: v._pop()  # noqa: E731
             elif k == 'x':
+                mline = f'remove {lab_f(o)}'
                 src = f'v._remove({rp(o)})'; want = cf(o) in ref
                 if want:
                     ref.remove(cf(o))
                 call = lambda: v._remove(o)  # noqa: E731
             else:
                 n = r.choice(fl)
+                mline = f'relabel {lab_f(o)}={lab_f(n)}'
                 src = f'v._relabel({{{rp(o)}: {rp(n)}}})'
                 want = not (cf(n) in ref and cf(n) != cf(o))
                 if want and cf(o) in ref:
@@ -682,6 +708,7 @@ def odd_label_cases(ctx, r):
                 call()
             except (ValueError, IndexError):
                 ok = False
+            emit(mline, ('ok ' if ok else 'err ') + state(v, lab_f), code[4:])
             q = r.choice(fl)
             facts = ([cf(x) for x in v] == ref and len(v) == len(ref) and ok == want and bool(v.count(q)) == (cf(q) in ref) and (q in v) == (cf(q) in ref)
                      and (cf(q) not in ref or v.index(q) == ref.index(cf(q))) and all(v.index(x) == i for i, x in enumerate(v)))
@@ -692,6 +719,8 @@ def odd_label_cases(ctx, r):
                                f'assert _ok == {want} and len(v) == len(L) and all(v.index(x) == i for i, x in enumerate(v)) and bool(v.count({rp(q)})) == {cf(q) in ref}')
                 return
     ctx.tick('non-integral number labels', ctx.scale(150, 1500))
+    if lines is not None:
+        ctx.tick('non-integral number labels: model lines over LabelF.enc')
     # nan / inf: refused, nothing changes
     for bad in (float('nan'), float('inf'), -float('inf'), np.float64('nan'), np.float32('inf')):
         for start in ([], [0, 1], ['a', 1.5, 0]):
@@ -1231,7 +1260,7 @@ def run(ctx):
     alias_cases(ctx, r, lines, expect, speclines, meta)
     object_cases(ctx, r, lines, expect, speclines, meta)
     autolabel_cases(ctx, r, lines, expect, speclines, meta)
-    odd_label_cases(ctx, r)
+    odd_label_cases(ctx, r, lines, expect, speclines, meta)
     method_coverage(ctx, r)
     got = run_driver('varsdriver', lines)
     ctx.corr_lines += len(lines)
